@@ -234,10 +234,17 @@ class Gen:
                     fs[i] = self.field("Base", base, anon=True)
                     if r.random() < 0.3:
                         fs.insert(0, self.field("S0", u(19), {"optional": "true"}, anon=True))
-                else:
+                elif e < 0.9:
                     # an embedded composite struct that does not embed dig.In
                     plain = self.st([self.field("X", u(r.choice(PT)))])
                     fs.insert(r.randrange(0, len(fs) + 1), self.field("Plain", plain, {"optional": "true"}, anon=True))
+                else:
+                    # no dig.In of its own: two parameter objects embedded side by side, each embedding dig.In
+                    (t1, n1) = self.gen_single_param(level, scope)
+                    (t2, n2) = self.gen_single_param(level, scope)
+                    left = self.st([self.in_field(), self.field("L1", u(t1), {"name": n1} if n1 else {})])
+                    right = self.st([self.in_field(), self.field("R1", u(t2), {"name": n2} if n2 else {})])
+                    return self.st([self.field("PartA", left, anon=True), self.field("PartB", right, anon=True)])
             return self.st(fs)
 
         for _ in range(n):
@@ -1350,6 +1357,14 @@ class Gen:
             elif c2 < 0.4:
                 outs = [self.st([self.out_field(), self.field("M", u(elem), {"group": g}), self.field("X", u(r.choice(PT[4:])), {"name": "v%d" % j})])] + outs[1:]
                 opts = {"name": "", "group": "", "as": [], "opts": []}
+            elif c2 < 0.55:
+                # adjacent results in two groups of the same name and different element types
+                other = r.choice([t for t in PT[:5] if t != elem])
+                fs = [self.out_field(), self.field("M", u(elem), {"group": g}), self.field("Q", u(other), {"group": g})]
+                if r.random() < 0.5:
+                    fs = [fs[0], fs[2], fs[1]]
+                outs = [self.st(fs)] + outs[1:]
+                opts = {"name": "", "group": "", "as": [], "opts": []}
             else:
                 opts = {"name": "", "group": g, "as": [], "opts": ["group"]}
             fid = self.new_fn(ins, outs)
@@ -1517,6 +1532,41 @@ class Gen:
 
 def generate(seed, w=None):
     return Gen(seed, w).program()
+
+
+def generate_valerr(seed, w=None):
+    """a program some of whose functions declare a result of a value-typed error (pool.VErr, never nil): dig takes it for an
+    error on every call; outside the model, judged by the trace predicates only"""
+    g = Gen(seed, w)
+    p = g.program()
+    r = random.Random(seed ^ 0xE44)
+    tail = []
+    g.ops = tail
+    sc = r.randrange(0, g.nscopes)
+    below = [x for x in range(g.nscopes) if sc in g.anc(x)]
+    (kt, kn) = g.fresh_key()
+    f1 = g.new_fn([], r.choice([[u(kt), u(25)], [u(25), u(kt)], [u(kt), u(25), u(0)]]))
+    tail.append({"op": "provide", "scope": sc, "fn": f1, "name": kn, "group": "", "as": [], "export": False, "cb": r.random() < 0.5,
+                 "info": r.random() < 0.3, "opts": ["name"] if kn else []})
+    for _ in range(r.choice([1, 2, 2])):
+        ins = [g.single_in(kt, kn, optional=r.random() < 0.3)] if r.random() < 0.5 else g.gen_params(None, r.choice([0, 1]), scope=sc)
+        outs = r.choice([[u(25)], [u(10), u(25)], [u(25), u(0)], [u(0), u(25)], [u(25), u(25)]])
+        f2 = g.new_fn(ins, outs)
+        tail.append({"op": "invoke", "scope": r.choice(below), "fn": f2, "info": r.random() < 0.3})
+    if g.provided and r.random() < 0.5:
+        (_, t, nm) = r.choice(g.provided)
+        if not nm:
+            f3 = g.new_fn([u(t)], [u(t), u(25)])
+            tail.append({"op": "decorate", "scope": sc, "fn": f3, "cb": r.random() < 0.5, "info": False})
+            f4 = g.new_fn([u(t)], [])
+            tail.append({"op": "invoke", "scope": r.choice(below), "fn": f4, "info": False})
+    if r.random() < 0.4:
+        tail.append({"op": "visualize", "scope": 0, "errOf": -1})
+    p["ops"] = p["ops"] + tail
+    p["fns"] = g.fns
+    p["script"] = g.script
+    p["unmodelled"] = "value-typed error results"
+    return p
 
 
 def generate_reentrant(seed, w=None):
